@@ -51,6 +51,12 @@ func fixedScenarios() []*Scenario {
 		{Metrics: true, Starts: []int{bOK}, Readies: []int{bOK}, Shuts: []int{bOK}, Stops: []int{bOK}, Reqs: []Rel{{Kind: "J"}, {Kind: "D"}}},
 		{Proto: pTLS, Stops: []int{bOK}, Reqs: []Rel{{Kind: "J"}}},
 		{ShortWrite: true, Shuts: []int{bOK}, Stops: []int{bOK}, Reqs: []Rel{{Kind: "D"}, {Kind: "H", J: 0}}},
+		// the stop signal arrives during start-up and the log sink is slow when the startup buffer is flushed
+		{SlowLog: true, Starts: []int{bCancelOK}, Readies: []int{bOK}, Stops: []int{bOK}},
+		// … and no hook that would probe the port and thereby wait until it is served
+		{SlowLog: true, Starts: []int{bCancelOK}},
+		{SlowLog: true, Proto: 1, Starts: []int{bOK, bCancelOK}},
+		{SlowLog: true, Starts: []int{bOK, bCancelOK}, Shuts: []int{bOK}},
 		// the only request in flight at the stop signal is served by a route registered on the router itself
 		{RawRoute: true, Shuts: []int{bOK}, Stops: []int{bOK}, Reqs: []Rel{{Kind: "D"}}},
 		{RawRoute: true, Metrics: true, Shuts: []int{bOK, bOK}, Stops: []int{bOK}, Reqs: []Rel{{Kind: "H", J: 0}, {Kind: "D"}}},
@@ -244,6 +250,16 @@ func genScenario(r *hx.Rand, tier string) *Scenario {
 		}
 		if !hasD && r.Chance(1, 2) {
 			sc.Reqs = append(sc.Reqs, Rel{Kind: "D"})
+		}
+	}
+	// a slow log sink while the startup buffer is flushed, with the stop signal already there
+	for _, b := range sc.Starts {
+		if b == bCancelOK && !sc.Metrics && !sc.Tracing && !sc.ShortWrite && r.Chance(1, 2) {
+			sc.SlowLog = true
+			if r.Chance(1, 2) {
+				// no hook after start-up: nothing that probes the port (and thereby waits until it is served)
+				sc.Readies, sc.Shuts, sc.Stops = nil, nil, nil
+			}
 		}
 	}
 	// the requests in flight go to a route registered on the router itself
